@@ -113,12 +113,15 @@ def arena_violation(d):
 
 
 def ht_reference(ops):
-    """return codes of a script of checked operations (i / r / f) on a set of (hash, value); None when the
-    script holds other operations"""
+    """return codes of a script of checked operations (i / r / f, d = lyht_dup keeps the content) on a set of
+    (hash, value); None when the script holds other operations"""
     s = set()
     out = []
     for o in ops:
         k, hv = o[0], o[1:]
+        if k == "d":
+            out.append("0")
+            continue
         if k not in "irf":
             return None
         h, v = hv.split(":")
@@ -162,10 +165,9 @@ def ht_witness(line, impl_out):
     d = parse_dump(dump)
     if d is None:
         return None
-    if "d" not in [o[0] for o in ops]:
-        v = arena_violation(d)
-        if v:
-            return ("ht-arena-invariant", v)
+    v = arena_violation(d)
+    if v:
+        return ("ht-arena-invariant", v)
     if lawful:
         exp, s = ref
         got = outs.split()
@@ -432,8 +434,17 @@ class DictScript(Comp):
                 pool = DICT_POOL + [b"k%d" % i for i in range(rng.randrange(1, 40))]
             else:
                 pool = [bytes(rng.randrange(1, 256) for _ in range(rng.randrange(0, 6))) for _ in range(rng.randrange(2, 30))]
-            ops = self.script(rng, rng.choice([3, 8, 20, 60, 150]), pool, rng.choice(["+-", "++-", "++-*", "+--*", "+++-"]))
+            ops = self.script(rng, rng.choice([3, 8, 20, 60, 150]), pool, rng.choice(["+-", "++-", "++-*", "+--*", "+++-", "+-*", "+*-*", "++--**"]))
             L.append("dict\t%d\t%s" % (size, ",".join(ops)))
+        # failing calls (dup / remove of a string that is not held) before, between and after the normal ones; inserts with
+        # an explicit length and with strlen alternate in the driver, so both positions are covered by the shifted copy
+        for s in DICT_POOL[:12]:
+            x = hexs(s)
+            fam = ["*" + x, "+" + x, "+" + x, "*" + x, "-" + x, "-" + x, "-" + x, "*" + x, "+" + x, "=" + x, "-" + x, "-" + x]
+            for size in (8, 0):
+                L.append("dict\t%d\t%s" % (size, ",".join(fam)))
+                L.append("dict\t%d\t%s" % (size, ",".join(["-" + hexs(b"zz")] + fam)))
+                L.append("dict\t%d\t%s" % (size, ",".join(["*" + hexs(b"other")] + fam + ["+" + hexs(b"other"), "-" + hexs(b"other")])))
         # many distinct strings: 8 -> ... -> 256 and back, every string inserted twice
         for size, n in ((8, 150), (16, 40), (0, 40)) + (((0, 1700),) if tier == "thorough" else ((0, 800),)):
             ks = [b"s%d" % i for i in range(n)]
@@ -856,14 +867,22 @@ class Ownership:
                                0x10, 0x20 | _DUP_REC, 0x40 | _DUP_REC, 0x7f, 0x80, 0xffffffff])
             return ["dup", N(), rng.choice(["~", "~", "~", N()]), opts, sl(), rng.choice("sb"), rng.choice("~~~~01")]
         if k == "merge":
-            return ["merge", sl(), sl(), rng.choice([0, 0, _MERGE_DESTRUCT, _MERGE_DESTRUCT, _MERGE_DEFAULTS, _MERGE_FLAGS, 7, 3, 5]), rng.choice("ts")]
+            mopts = rng.choice([0, 0, _MERGE_DESTRUCT, _MERGE_DESTRUCT, _MERGE_DEFAULTS, _MERGE_FLAGS, 7, 3, 5])
+            if rng.random() < 0.35:
+                # lyd_merge_module with a callback that fails at its K-th call (0 = never)
+                return ["merge", sl(), sl(), mopts, "m", rng.choice([0, 1, 1, 2, 3, 4, 6, 9, 15]), rng.choice(["~", "~", "a0", "b0", "a1"])]
+            return ["merge", sl(), sl(), mopts, rng.choice("ts")]
         if k == "diff":
             return ["diff", sl(), sl(), rng.choice([0, 0, 1]), sl()]
         if k == "apply":
+            if rng.random() < 0.3:
+                return ["apply", sl(), sl(), rng.choice([0, 1, 1, 2, 3, 5, 8, 13])]     # lyd_diff_apply_module, failing callback
             return ["apply", sl(), sl()]
         if k == "rev":
             return ["rev", sl(), sl()]
         if k == "dmerge":
+            if rng.random() < 0.3:
+                return ["dmerge", sl(), sl(), rng.choice([0, 1]), rng.choice([0, 1, 1, 2, 3, 5, 8])]   # lyd_diff_merge_module, failing callback
             return ["dmerge", sl(), sl(), rng.choice([0, 1])]
         if k == "val":
             return ["val", sl(), rng.choice("~~~01"), rng.choice([0, 0, _V_PRESENT, _V_PRESENT, _V_NOSTATE, _V_MULTI, 0x10, 0x20, _V_MULTI | _V_PRESENT]),
@@ -901,6 +920,9 @@ class Ownership:
               ["apply", 0, 1]]),
             ("merge-destruct-einval-source-not-consumed",
              [P("0", '<top %s>t</top>' % A, 0, _P_ONLY), P("1", '<top %s>u</top>' % A, 1, _P_ONLY), ["merge", 0, 1, _MERGE_DESTRUCT, "s"]]),
+            ("merge-destruct-cb-fail-frees-target",
+             [P("0", '<top %s>t</top>' % A, 0, _P_ONLY), P("0", '<tul %s>n</tul><tul %s>m</tul>' % (A, A), 1, _P_ONLY),
+              ["merge", 0, 1, _MERGE_DESTRUCT, "m", 1, "~"]]),
             ("parse-multi-error-syntax-leak", [P("0", '<l %s><k1>c<k1><k2>3</k2></l>' % A, 0, _P_ONLY, _V_MULTI)]),
             ("parse-multi-error-bad-meta-assert", [P("0", '<top %s %s yang:operation="bogus">t</top>' % (A, Y), 0, _P_ONLY, _V_MULTI)]),
             ("out-not-null:parsep",
@@ -999,6 +1021,17 @@ class Ownership:
                 case(["unlink", "1.1", 5], ["merge", 0, 5, opts, how])
                 case(["unlink", "0.9", 5], ["merge", 5, 1, opts, how])
                 case(["merge", 4, 1, opts, how], ["merge", 4, 0, opts, how])
+        # callbacks that fail at every position: lyd_merge_module (with and without DESTRUCT: the source is spent on failure
+        # too, or untouched), lyd_diff_apply_module, lyd_diff_merge_module
+        for opts in (0, _MERGE_DESTRUCT, _MERGE_DESTRUCT | _MERGE_DEFAULTS):
+            for kfail in range(0, 14):
+                case(["merge", 0, 1, opts, "m", kfail, "~"])
+                case(["merge", 1, 0, opts, "m", kfail, "a0"])
+            for kfail in (1, 2, 3):
+                case(["merge", 5, 0, opts, "m", kfail, "~"], ["merge", 5, 1, opts, "m", kfail, "b0"])
+        for kfail in range(0, 12):
+            case(["diff", 0, 1, 0, 4], ["apply", 0, 4, kfail], ["apply", 0, 4, 0])
+            case(["diff", 0, 1, 1, 4], ["diff", 1, 3, 0, 5], ["dmerge", 4, 5, 0, kfail], ["dmerge", 4, 5, 0, 0], ["apply", 0, 4, kfail])
         # data parser: malformed documents
         bads = [base[:40], base[:-5], base.replace("<k2>1</k2>", "<k2>x</k2>"), base.replace("<k2>1</k2>", ""), base + '<zz %s/>' % _NSA,
                 base + base, base.replace("<s>abc</s>", "<s>ABC</s>"), base.replace("<lr>a</lr>", "<lr>zz</lr>"), base.replace("<man>m</man>", ""),
@@ -1075,10 +1108,11 @@ class Ownership:
 
     # ---- verdict ----------------------------------------------------------------------------------------------------
     END = _re.compile(r"end:d(-?\d+),(-?\d+)/(-?\d+),(-?\d+):w(\d+):k(\d+)(?:@(-?\d+):([a-z0-9]+)(?:~([a-z0-9-]*))?)?:l(\d+)$")
-    FLAG = _re.compile(r"(OUT|CHG|UNREL|LINK|FREED|NC|REST|DICT|CTX|NOTFIRST|LOGLOC|ANYPTR)!")
+    FLAG = _re.compile(r"(OUT|CHG|UNREL|LINK|TFREED|FREED|NC|REST|DICT|CTX|NOTFIRST|LOGLOC|ANYPTR)!")
     FLAGTAG = {"OUT": "out-not-null", "CHG": "input-changed", "UNREL": "unrelated-changed", "LINK": "link-broken", "FREED": "input-freed",
                "NC": "not-consumed", "REST": "free-changed-rest", "DICT": "dict-changed-by-failed-load", "CTX": "context-broken-by-load",
-               "NOTFIRST": "not-first-sibling", "LOGLOC": "log-location-unbalanced", "ANYPTR": "any-update-keeps-caller-buffer"}
+               "NOTFIRST": "not-first-sibling", "LOGLOC": "log-location-unbalanced", "ANYPTR": "any-update-keeps-caller-buffer",
+               "TFREED": "merge-destruct-cb-fail-frees-target"}
 
     # crash signatures (stderr of the crashed case) -> tag; the first that matches
     CRASHES = [
@@ -1119,7 +1153,9 @@ class Ownership:
                 cmd, _, rest = p.partition(":")
                 rcs = _re.match(r"-?\d+|-|\?", rest)
                 tag = "%s:%s" % (self.FLAGTAG[f.group(1)], cmd.rstrip("1"))
-                if f.group(1) == "NC" and rcs and rcs.group(0) == "3":
+                if f.group(1) == "TFREED":
+                    tag = "merge-destruct-cb-fail-frees-target"
+                elif f.group(1) == "NC" and rcs and rcs.group(0) == "3":
                     tag = "merge-destruct-einval-source-not-consumed"
                 elif f.group(1) == "LINK" and "schema parent" in p and cmd.startswith("path"):
                     tag = "new-path-nested-parent-toplevel-misplaced"
